@@ -245,10 +245,11 @@ func (cmd *ResponseCommand) populate(raw *rawEnvelope) error {
 		return err
 	}
 
-	if raw.Status != nil {
-		cmd.Status = *raw.Status
+	if raw.Status == nil || *raw.Status == "" {
+		return errors.New("command status is required")
 	}
 
+	cmd.Status = *raw.Status
 	cmd.Reason = raw.Reason
 
 	return nil
